@@ -239,7 +239,7 @@ impl crate::platform::Arch for ElfX86_64 {
                     }
                     _ => {}
                 }
-                if !interposable {
+                if !interposable && !(is_absolute && output_kind.is_relocatable()) {
                     match section_bytes.get(offset - 2..offset)? {
                         // call *x(%rip)
                         [0xff, 0x15] => {
@@ -262,7 +262,11 @@ impl crate::platform::Arch for ElfX86_64 {
                 }
                 return None;
             }
-            object::elf::R_X86_64_GOTPCREL if !interposable && offset >= 2 => {
+            object::elf::R_X86_64_GOTPCREL
+                if !interposable
+                    && offset >= 2
+                    && !(is_absolute && output_kind.is_relocatable()) =>
+            {
                 match section_bytes.get(offset - 2)? {
                     // mov *x(%rip), reg
                     0x8b => {
